@@ -1187,7 +1187,7 @@ def prop_history(ch, ctx):
             W.note(S, mk, ctx)
             ev = W.evtag(S, mk)
             api = draw_api(ch, label, fl, mk_py(mk))
-            if api: ctx.cell(f'hist:api{api_tag(api)}')
+            if api: ctx.cell(f'hist:api={min(len(api[2]), 2)}')
             if op == 'read':
                 g = do_read(ctx, S, fl, mk, ev=ev, api=api)
                 if api is None: remember(W, si, fl, mk, g)
